@@ -34,6 +34,7 @@
 #include "CppUTest/SimpleStringInternalCache.h"
 #include "CppUTest/PlatformSpecificFunctions.h"
 #include "CppUTest/MemoryLeakDetectorMallocMacros.h"
+extern "C" { void cpputest_malloc_set_out_of_memory(void); void cpputest_malloc_set_not_out_of_memory(void); }
 #undef new
 #undef malloc
 #undef free
@@ -45,6 +46,14 @@
 namespace {
 
 typedef unsigned char uchar;
+
+// The engine keeps at most 20000 FAIL lines per worker; a defect that fails tens of thousands of cases under one signature
+// would crowd out the signatures found later. Each worker therefore emits at most 100 witnesses per signature.
+void cfail(const std::string& sig, const std::string& detail) {
+    static std::unordered_map<std::string, long> emitted;
+    if (vf::g_replaying || ++emitted[sig] <= 100) vf::fail(sig, detail);
+    else vf::count("failures_not_emitted");
+}
 
 // ------------------------------------------------------------------ arena behind PlatformSpecificMalloc/Free/Realloc
 constexpr size_t STRIDE = 73 * 64;           // every slot base hashes to the same detector bucket
@@ -350,9 +359,9 @@ struct Env {
         std::string c = std::string(chan) + (qual ? qual : wrapped ? "/wrapper" : "");
         if (got != want) {
             failures++;
-            vf::fail(c + "/want-" + CAT[want] + "/got-" + CAT[got], desc() + vf::fmt(": expected report '%s', observed '%s'%s%s", CAT[want], CAT[got], rep.calls ? " text: " : "", rep.calls ? rep.first : ""));
+            cfail(c + "/want-" + CAT[want] + "/got-" + CAT[got], desc() + vf::fmt(": expected report '%s', observed '%s'%s%s", CAT[want], CAT[got], rep.calls ? " text: " : "", rep.calls ? rep.first : ""));
         }
-        if (rep.calls > 1) { failures++; vf::fail(c + "/more-than-one-callback", desc() + vf::fmt(": %d callbacks for one release: '%s' then '%s'", rep.calls, rep.first, rep.second)); }
+        if (rep.calls > 1) { failures++; cfail(c + "/more-than-one-callback", desc() + vf::fmt(": %d callbacks for one release: '%s' then '%s'", rep.calls, rep.first, rep.second)); }
         return got != C_NONE;
     }
     // the watched block was released through delete/delete[]/free: what did the platform free see?
@@ -360,7 +369,7 @@ struct Env {
         if (!g_watch.seen) return "not-returned";
         if (g_watch.kept) {
             failures++;
-            vf::fail(std::string(chan) + (qual ? qual : wrapped ? "/wrapper" : "") + "/user-bytes-not-overwritten-before-return", desc() + vf::fmt(": %ld of %zu user bytes still held the user's value when the block was handed back", g_watch.kept, g_watch.size));
+            cfail(std::string(chan) + (qual ? qual : wrapped ? "/wrapper" : "") + "/user-bytes-not-overwritten-before-return", desc() + vf::fmt(": %ld of %zu user bytes still held the user's value when the block was handed back", g_watch.kept, g_watch.size));
             return "kept";
         }
         return g_watch.not_cd ? "overwritten-other" : "overwritten-cd";
@@ -495,7 +504,7 @@ void pair_case(long idx) {
         Cat wantf = reference(true, false, ac.fam, MAL, T != 0, changed);
         const char* saved_qual = env.qual; env.qual = "/failed";
         bool reported = env.judge("realloc", false, wantf, desc);
-        if (q) vf::fail("realloc/failed/returned-a-block", desc() + ": the reallocation cannot succeed but did not return NULL");
+        if (q) cfail("realloc/failed/returned-a-block", desc() + ": the reallocation cannot succeed but did not return NULL");
         env.qual = saved_qual;
         if (reported || wantf != C_NONE || q) {
             vf::outcome(vf::fmt("failed-realloc<-%s %s", ALLOC_NAME[ac.fam], CAT[wantf]));
@@ -503,7 +512,7 @@ void pair_case(long idx) {
             if (vf::want_sample()) vf::sample(desc());
             return;
         }
-        for (size_t i = 0; i < size; i++) if ((uchar)b.p[i] != pat(i)) { vf::fail("realloc/failed/user-bytes-changed", desc() + ": the failed reallocation modified the block"); break; }
+        for (size_t i = 0; i < size; i++) if ((uchar)b.p[i] != pat(i)) { cfail("realloc/failed/user-bytes-changed", desc() + ": the failed reallocation modified the block"); break; }
     }
     env.watch(b);
     env.release(rc.kind, rc.fam, rc.wrap, b.p, size + 2);
@@ -617,8 +626,8 @@ void pair2_case(long idx) {
     Cat want = reference(true, false, as.fam, rs.fam, T != 0, changed);
     Cat got = classify(env.rep1);
     std::string c = std::string(chan) + "/wrapper-stack";
-    if (got != want) vf::fail(c + "/want-" + CAT[want] + "/got-" + CAT[got], desc() + vf::fmt(": expected report '%s', observed '%s'%s%s", CAT[want], CAT[got], env.rep1.calls ? " text: " : "", env.rep1.calls ? env.rep1.first : ""));
-    if (env.rep1.calls > 1) vf::fail(c + "/more-than-one-callback", desc() + vf::fmt(": %d callbacks for one release: '%s' then '%s'", env.rep1.calls, env.rep1.first, env.rep1.second));
+    if (got != want) cfail(c + "/want-" + CAT[want] + "/got-" + CAT[got], desc() + vf::fmt(": expected report '%s', observed '%s'%s%s", CAT[want], CAT[got], env.rep1.calls ? " text: " : "", env.rep1.calls ? env.rep1.first : ""));
+    if (env.rep1.calls > 1) cfail(c + "/more-than-one-callback", desc() + vf::fmt(": %d callbacks for one release: '%s' then '%s'", env.rep1.calls, env.rep1.first, env.rep1.second));
     if (env.rep2.calls) vf::count("inner_level_reports");       // releases of the inner level (MemoryLeakAllocator): not judged
     if (g_foreign_free) vf::count("underlying_interior_free", g_foreign_free);
     if (g_double_free) vf::count("underlying_double_free", g_double_free);
@@ -678,7 +687,7 @@ void addr_case(long idx) {
     const char* chan = chan_name(rc.kind, rc.fam);
     env.judge(chan, false, want, desc);
     if (rc.kind == K_REALLOC && ak.kind == A_NULL) {                  // realloc(NULL, n) is an allocation
-        if (!q) { env.failures++; vf::fail("realloc/null-address-not-an-allocation", desc() + ": realloc(NULL, 6) returned NULL"); }
+        if (!q) { env.failures++; cfail("realloc/null-address-not-an-allocation", desc() + ": realloc(NULL, 6) returned NULL"); }
         else { env.release(K_GLOBAL, MAL, W_NONE, q); env.judge("free", false, C_NONE, [&]() { return desc() + "; then free of the returned block"; }); }
     }
     const char* rr = rc.kind != K_REALLOC ? "" : q ? " realloc->block" : " realloc->NULL";
@@ -690,13 +699,13 @@ void addr_case(long idx) {
     const char* pv = env.poison_verdict(REL_NAME[fam], false, desc2);
     if (det2) {
         { Window win; det2->deallocMemory(defalloc(rc.fam), other, "other.c", 32, rc.fam == MAL); }
-        if (rep2.calls) { env.failures++; vf::fail("other-detector/report-after-foreign-release-elsewhere", desc() + ": the owning detector reported '" + rep2.first + "' when its block was released properly afterwards"); }
+        if (rep2.calls) { env.failures++; cfail("other-detector/report-after-foreign-release-elsewhere", desc() + ": the owning detector reported '" + rep2.first + "' when its block was released properly afterwards"); }
     }
     if (heap) {
-        for (size_t i = 0; i < 24; i++) if (((uchar*)heap)[i] != 0x5b) { env.failures++; vf::fail(std::string(chan) + "/foreign-memory-written", desc() + ": the foreign heap block was modified"); break; }
+        for (size_t i = 0; i < 24; i++) if (((uchar*)heap)[i] != 0x5b) { env.failures++; cfail(std::string(chan) + "/foreign-memory-written", desc() + ": the foreign heap block was modified"); break; }
         ::free(heap);
     }
-    for (size_t i = 0; i < sizeof stackbuf; i++) if (stackbuf[i] != 0x5a) { env.failures++; vf::fail(std::string(chan) + "/foreign-memory-written", desc() + ": the stack buffer was modified"); break; }
+    for (size_t i = 0; i < sizeof stackbuf; i++) if (stackbuf[i] != 0x5a) { env.failures++; cfail(std::string(chan) + "/foreign-memory-written", desc() + ": the stack buffer was modified"); break; }
     env.anomalies();
     const char* kind_name[] = {"null", "stale", "stack", "static", "unused", "other-detector", "heap", "offset"};
     vf::outcome(vf::fmt("%s %s %s%s %s", chan, kind_name[ak.kind], CAT[want], rr, pv));
@@ -722,21 +731,27 @@ TestMemoryAllocator g_custom_arr("Standard New [] Allocator", "new []", "delete 
 TestMemoryAllocator g_custom_mal("Standard Malloc Allocator", "malloc", "free");        // "equal type" is the name
 TestMemoryAllocator* custom(int f) { return f == NEW ? &g_custom_new : f == ARR ? &g_custom_arr : &g_custom_mal; }
 TestMemoryAllocator* current(int f) { return f == NEW ? getCurrentNewAllocator() : f == ARR ? getCurrentNewArrayAllocator() : getCurrentMallocAllocator(); }
-enum { S_DEF = 0, S_CUSTOM = 1, S_ACCT = 2 };
-enum { O_SAVE, O_RESTORE, O_SETC0, O_SETC1, O_SETC2, O_SETD0, O_SETD1, O_SETD2, O_START, O_STOP, O_OVL_SAVEREST, O_OVL_OFFON, O_OVL_TS, O_COUNT };
+enum { S_DEF = 0, S_CUSTOM = 1, S_ACCT = 2, S_NULL = 3 };
+enum { O_SAVE, O_RESTORE, O_SETC0, O_SETC1, O_SETC2, O_SETD0, O_SETD1, O_SETD2, O_START, O_STOP, O_OVL_SAVEREST, O_OVL_OFFON, O_OVL_TS, O_OOM_ON, O_OOM_OFF, O_SETN0, O_SETN1, O_SETN2, O_COUNT };
 const char* OP_NAME[] = {"stash.save", "stash.restore", "setCurrentNewAllocator(custom)", "setCurrentNewArrayAllocator(custom)", "setCurrentMallocAllocator(custom)",
                          "setCurrentNewAllocatorToDefault", "setCurrentNewArrayAllocatorToDefault", "setCurrentMallocAllocatorToDefault", "accountant.start", "accountant.stop",
-                         "saveAndDisableNewDeleteOverloads+restoreNewDeleteOverloads", "turnOffNewDeleteOverloads+turnOnDefaultNotThreadSafeNewDeleteOverloads", "turnOnThreadSafeNewDeleteOverloads"};
+                         "saveAndDisableNewDeleteOverloads+restoreNewDeleteOverloads", "turnOffNewDeleteOverloads+turnOnDefaultNotThreadSafeNewDeleteOverloads", "turnOnThreadSafeNewDeleteOverloads",
+                         "cpputest_malloc_set_out_of_memory", "cpputest_malloc_set_not_out_of_memory", "setCurrentNewAllocator(null allocator)", "setCurrentNewArrayAllocator(null allocator)", "setCurrentMallocAllocator(null allocator)"};
 alignas(16) char g_ga_storage[sizeof(GlobalMemoryAccountant)];
 struct Routing {
     int slot[3] = {S_DEF, S_DEF, S_DEF};
     bool saved = false; int saved_slot[3] = {0, 0, 0};
     bool started = false, stopped = false, diverged = false; int orig[3] = {0, 0, 0};
     bool threadsafe_table = false;
+    bool null_used = false, oom_has = false; int oom_orig = S_DEF;      // the out-of-memory simulation remembers the malloc allocator it replaced
     GlobalMemoryAllocatorStash stash;
     GlobalMemoryAccountant* ga = nullptr;
     bool enabled(int op) const {
         if ((op == O_START || op == O_STOP) && diverged) return false;
+        // an accounting allocator around the null allocator dereferences the NULL it gets for its own record (not C06's subject):
+        // the null allocator and the accountant are never combined in one case
+        if (op >= O_OOM_ON && op <= O_SETN2) return !started;
+        if (op == O_START && null_used) return false;
         if (op == O_START) return !started;                                   // a second start() is a documented usage error (FAIL)
         if (op == O_STOP) return started && !stopped && slot[0] == S_ACCT && slot[1] == S_ACCT && slot[2] == S_ACCT;   // likewise
         return true;
@@ -754,17 +769,22 @@ struct Routing {
         case O_OVL_SAVEREST: MemoryLeakWarningPlugin::saveAndDisableNewDeleteOverloads(); MemoryLeakWarningPlugin::restoreNewDeleteOverloads(); break;
         case O_OVL_OFFON: MemoryLeakWarningPlugin::turnOffNewDeleteOverloads(); MemoryLeakWarningPlugin::turnOnDefaultNotThreadSafeNewDeleteOverloads(); threadsafe_table = false; break;
         case O_OVL_TS: MemoryLeakWarningPlugin::turnOnThreadSafeNewDeleteOverloads(); threadsafe_table = true; break;
+        case O_OOM_ON: cpputest_malloc_set_out_of_memory(); null_used = true; if (!oom_has) { oom_has = true; oom_orig = slot[MAL]; } slot[MAL] = S_NULL; break;
+        case O_OOM_OFF: cpputest_malloc_set_not_out_of_memory(); slot[MAL] = oom_has ? oom_orig : S_DEF; oom_has = false; break;
+        case O_SETN0: case O_SETN1: case O_SETN2: setcur(op - O_SETN0, NullUnknownAllocator::defaultAllocator()); null_used = true; slot[op - O_SETN0] = S_NULL; break;
         }
     }
     TestMemoryAllocator* expected(int f) const {
         if (slot[f] == S_DEF) return defalloc(f);
         if (slot[f] == S_CUSTOM) return custom(f);
+        if (slot[f] == S_NULL) return NullUnknownAllocator::defaultAllocator();
         return f == NEW ? ga->getNewAllocator() : f == ARR ? ga->getNewArrayAllocator() : ga->getMallocAllocator();
     }
 };
 struct Pending { char sig[96]; char detail[1700]; };
 void routing_case(vf::Chooser& ch, int depth_before, int depth_between, int depth_total) {
     ch.c.reserve(256); ch.n.reserve(256);
+    cpputest_malloc_set_not_out_of_memory();          // the simulation keeps static state: every case starts with it off
     int T = ch.choose(2), gs = ch.choose(2), form = ch.choose(NFORMS), rc = ch.choose(NRFORMS);
     int fa = FORM_FAM[form], fr = RFORM_FAM[rc], kind = rc == 3 ? K_REALLOC : K_GLOBAL;
     const char* rname = RFORM_NAME[rc];
@@ -784,7 +804,7 @@ void routing_case(vf::Chooser& ch, int depth_before, int depth_between, int dept
     auto check_state = [&]() {
         for (int f = 0; f < 3; f++) {
             TestMemoryAllocator* c = current(f);
-            if (strcmp(c->actualAllocator()->name(), defalloc(f)->name()) != 0) { bad_slot = true; pending("routing/current-allocator-of-another-family", f == NEW ? "the current new allocator is now '%s'" : f == ARR ? "the current new[] allocator is now '%s'" : "the current malloc allocator is now '%s'", c->actualAllocator()->name()); }
+            if (ro.slot[f] != S_NULL && strcmp(c->actualAllocator()->name(), defalloc(f)->name()) != 0) { bad_slot = true; pending("routing/current-allocator-of-another-family", f == NEW ? "the current new allocator is now '%s'" : f == ARR ? "the current new[] allocator is now '%s'" : "the current malloc allocator is now '%s'", c->actualAllocator()->name()); }
             else if (c != ro.expected(f)) { bad_slot = true; pending(ro.slot[f] == S_DEF ? "routing/default-allocator-not-current" : "routing/current-allocator-not-the-installed-one", "the current %s allocator is not the one the history installed", ALLOC_NAME[f]); }
         }
         if (!MemoryLeakWarningPlugin::areNewDeleteOverloaded()) pending("routing/overloads-not-active", "areNewDeleteOverloaded() is false although the overloads were %s", "switched on");
@@ -794,7 +814,8 @@ void routing_case(vf::Chooser& ch, int depth_before, int depth_between, int dept
         for (int i = 0; i < depth; i++) {
             int en[O_COUNT + 2], n = 0;
             for (int op = 0; op < O_COUNT; op++) if (ro.enabled(op)) en[n++] = op;
-            if (have_block) { en[n++] = O_COUNT; en[n++] = O_COUNT + 1; }      // a reallocation of the block that fails
+            if (have_block && ro.slot[MAL] != S_NULL) { en[n++] = O_COUNT; en[n++] = O_COUNT + 1; }      // a reallocation of the block that fails
+                                                                 // (with the null allocator current realloc gives up before it looks at the block: not judged)
             int c = ch.choose(n + 1);
             if (c == 0) break;
             int op = en[c - 1];
@@ -822,11 +843,19 @@ void routing_case(vf::Chooser& ch, int depth_before, int depth_between, int dept
     g_window_inert = true; g_capture = true;
     MemoryLeakWarningPlugin::turnOnDefaultNotThreadSafeNewDeleteOverloads();
     int used = history(depth_before, false);
+    if (ro.slot[fa] == S_NULL) {        // the allocating family is out of memory: the allocation yields nothing to release
+        MemoryLeakWarningPlugin::turnOffNewDeleteOverloads(); g_capture = false; g_window_inert = false;
+        cpputest_malloc_set_not_out_of_memory();
+        for (int i = 0; i < npend; i++) cfail(pend[i].sig, pend[i].detail);
+        vf::outcome(vf::fmt("no-block<-%s", FORM_NAME[form])); vf::count("ops", nops);
+        return;
+    }
     b = env.alloc_form(form, 5);
     say("p = %s(5); ", FORM_NAME[form]);
     if (gs) { b.p[b.size + 1] = (char)(b.g0[1] ^ 0x10); say("p[6] overwritten; "); }
     history(depth_total - used < depth_between ? depth_total - used : depth_between, true);
     bool changed = guard_changed(b);
+    bool null_release = ro.slot[fr] == S_NULL;
     if (!ended) {
         say("%s(p)", rname);
         env.watch(b);
@@ -837,9 +866,10 @@ void routing_case(vf::Chooser& ch, int depth_before, int depth_between, int dept
     if (ro.ga) { ro.ga->~GlobalMemoryAccountant(); ro.ga = nullptr; }      // its allocators were obtained through the live table
     MemoryLeakWarningPlugin::turnOffNewDeleteOverloads();
     g_capture = false; g_window_inert = false;
+    cpputest_malloc_set_not_out_of_memory();
     // ---- table off
     env.rep = seen; g_watch = w;
-    for (int i = 0; i < npend; i++) vf::fail(pend[i].sig, pend[i].detail);
+    for (int i = 0; i < npend; i++) cfail(pend[i].sig, pend[i].detail);
     auto desc = [&]() { return std::string(trace) + vf::fmt(" (type checking %s)", T ? "on" : "off"); };
     if (ended) {        // the history ended at a failing reallocation for which a report was due (or made)
         vf::outcome(vf::fmt("failed-realloc<-%s %s", FORM_NAME[form], CAT[ended_want]));
@@ -848,6 +878,14 @@ void routing_case(vf::Chooser& ch, int depth_before, int depth_between, int dept
         return;
     }
     Cat want = reference(true, false, fa, fr, T != 0, changed);
+    if (null_release && kind == K_REALLOC) {       // realloc with the null allocator current cannot obtain its record and gives up
+        vf::outcome(vf::fmt("realloc<-%s not-judged(null allocator current) got-%s", FORM_NAME[form], CAT[classify(env.rep)]));   // before looking at the block
+        vf::count("ops", nops + 2);
+        return;
+    }
+    // a release while the null allocator (out-of-memory simulation) is the current allocator of the releasing family is judged by
+    // the same rule but under a signature of its own
+    if (null_release) { env.qual = "/null-allocator-current"; rname = REL_NAME[fr]; }      // one signature per family, not per release form
     env.judge(rname, false, want, desc);
     const char* pv = kind == K_GLOBAL ? env.poison_verdict(rname, false, desc) : "n/a";
     env.anomalies();
@@ -951,7 +989,7 @@ void failrealloc_case(long idx) {
         Cat wantf = changed ? C_CORRUPT : C_NONE;
         env.qual = "/failed";
         bool reported = env.judge("realloc", false, wantf, desc);
-        if (q) vf::fail("realloc/failed/returned-a-block", desc() + ": the reallocation cannot succeed but did not return NULL");
+        if (q) cfail("realloc/failed/returned-a-block", desc() + ": the reallocation cannot succeed but did not return NULL");
         env.qual = nullptr;
         if (reported || wantf != C_NONE || q) {
             vf::outcome(vf::fmt("failed-realloc %s sep=%d %s", ALLOC_NAME[fam], sep, CAT[wantf]));
@@ -959,8 +997,8 @@ void failrealloc_case(long idx) {
             if (vf::want_sample()) vf::sample(desc());
             return;
         }
-        for (size_t j = 0; j < size; j++) if ((uchar)p[j] != pat(j)) { vf::fail("realloc/failed/user-bytes-changed", desc() + ": the failed reallocation modified the block"); break; }
-        if (memcmp(p + size, b.g0, 3) != 0) vf::fail("realloc/failed/guard-bytes-changed", desc() + ": the failed reallocation modified the guard bytes");
+        for (size_t j = 0; j < size; j++) if ((uchar)p[j] != pat(j)) { cfail("realloc/failed/user-bytes-changed", desc() + ": the failed reallocation modified the block"); break; }
+        if (memcmp(p + size, b.g0, 3) != 0) cfail("realloc/failed/guard-bytes-changed", desc() + ": the failed reallocation modified the guard bytes");
     }
     if (after) p[size + gpos] = (char)(b.g0[gpos] ^ 0x40);
     bool changed = guard_changed(b);
@@ -1079,7 +1117,7 @@ void hist_case(vf::Chooser& ch, int depth, int maxlive) {
                 auto desc = [&]() { return trace + vf::fmt("(type checking %s, guard %s)", T ? "on" : "off", changed ? "changed" : "intact"); };
                 env.qual = "/failed";
                 bool reported = env.judge("realloc", false, want, desc);
-                if (q) vf::fail("realloc/failed/returned-a-block", desc() + ": the reallocation cannot succeed but did not return NULL");
+                if (q) cfail("realloc/failed/returned-a-block", desc() + ": the reallocation cannot succeed but did not return NULL");
                 env.qual = nullptr;
                 if (reported || want != C_NONE || q) { last = want; stopped = true; break; }
                 failed_reallocs++;
@@ -1100,7 +1138,7 @@ void hist_case(vf::Chooser& ch, int depth, int maxlive) {
                 live.erase(live.begin() + k);
                 if (reported || want != C_NONE) { stopped = true; break; }
                 if (kind == K_REALLOC) {
-                    if (!q) { vf::fail("realloc/returned-null", desc() + ": realloc of an outstanding block returned NULL"); stopped = true; break; }
+                    if (!q) { cfail("realloc/returned-null", desc() + ": realloc of an outstanding block returned NULL"); stopped = true; break; }
                     Blk nb; nb.p = (char*)q; nb.size = b.size + 2; nb.fam = MAL;
                     for (size_t i = 0; i < nb.size; i++) nb.p[i] = (char)pat(i);
                     memcpy(nb.g0, nb.p + nb.size, 3);
@@ -1226,7 +1264,7 @@ int main(int argc, char** argv) {
     vf::require_outcomes("hist", 20);
 
     int rb = 2, rbt = 2, rtot = TH ? 4 : 3;
-    vf::info("routing.bound", vf::fmt("8 allocating forms of the routing table (new, new[], new(nothrow), new[](nothrow), new(size,file,line), new[](size,file,line), malloc, realloc(NULL)) x 12 releasing forms (delete, delete[], their nothrow, sized, (file,int line) and (file,size_t line) forms, free, realloc) through the global routing only x type checking on/off x guard {intact, one byte changed} x every history of <= %d manipulations before the allocation x every history of <= %d between allocation and release (together <= %d), over {GlobalMemoryAllocatorStash save, restore; setCurrent{New,NewArray,Malloc}Allocator(custom allocator of that family); setCurrent{New,NewArray,Malloc}AllocatorToDefault; GlobalMemoryAccountant start, stop (only where the documented usage allows them); saveAndDisableNewDeleteOverloads+restoreNewDeleteOverloads; turnOffNewDeleteOverloads+turnOnDefaultNotThreadSafeNewDeleteOverloads; turnOnThreadSafeNewDeleteOverloads; between allocation and release also: a cpputest_realloc of the block that the platform fails, a cpputest_realloc to size_t(-5)}; the overload table is switched on once per case and afterwards touched by these manipulations only; after every manipulation the three current allocators are compared with a slot model", rb, rbt, rtot));
+    vf::info("routing.bound", vf::fmt("8 allocating forms of the routing table (new, new[], new(nothrow), new[](nothrow), new(size,file,line), new[](size,file,line), malloc, realloc(NULL)) x 12 releasing forms (delete, delete[], their nothrow, sized, (file,int line) and (file,size_t line) forms, free, realloc) through the global routing only x type checking on/off x guard {intact, one byte changed} x every history of <= %d manipulations before the allocation x every history of <= %d between allocation and release (together <= %d), over {GlobalMemoryAllocatorStash save, restore; setCurrent{New,NewArray,Malloc}Allocator(custom allocator of that family); setCurrent{New,NewArray,Malloc}AllocatorToDefault; GlobalMemoryAccountant start, stop (only where the documented usage allows them); saveAndDisableNewDeleteOverloads+restoreNewDeleteOverloads; turnOffNewDeleteOverloads+turnOnDefaultNotThreadSafeNewDeleteOverloads; turnOnThreadSafeNewDeleteOverloads; cpputest_malloc_set_out_of_memory, cpputest_malloc_set_not_out_of_memory; setCurrent{New,NewArray,Malloc}Allocator(NullUnknownAllocator) (never together with the accountant; an allocation while its family is out of memory yields no block and ends the case); between allocation and release also: a cpputest_realloc of the block that the platform fails, a cpputest_realloc to size_t(-5)}; the overload table is switched on once per case and afterwards touched by these manipulations only; after every manipulation the three current allocators are compared with a slot model", rb, rbt, rtot));
     vf::section_dfs("routing", 4, false, [&](vf::Chooser& ch) { routing_case(ch, rb, rbt, rtot); });
     vf::require_outcomes("routing", 40);
 
